@@ -2015,9 +2015,12 @@ def ts_differential_prepare(ctx: Ctx, m: Any, sdk: Any, st: Any, n_instances: in
         except (OverflowError, TypeError):
             ctx.hit("oracle:tsdiff:instance-not-representable")
             continue
-        _strings_of(inst, strings)
+        own: set = set()
+        _strings_of(inst, own)
+        strings |= own
         failed = {d for d, path in errs if path == ""}
-        cases.append({"cls": root_cls, "js": js, "failed": sorted(failed), "show": repr(vars(inst))[:600]})
+        cases.append({"cls": root_cls, "js": js, "failed": sorted(failed), "show": repr(vars(inst))[:600],
+                      "astral": any(ord(ch) > 0xFFFF for sx in own for ch in sx)})
     if not cases:
         return None
     tables = []
@@ -2074,7 +2077,7 @@ def ts_differential_judge(prep: Dict[str, Any], res: Any) -> List[Tuple[str, str
                 continue  # a table miss or an exception: no verdict to compare
             py_holds = descr not in case["failed"]
             if bool(v) != py_holds:
-                astral = any(ord(ch) > 0xFFFF for ch in case["js"])
+                astral = case["astral"]  # C09-F5: `length` / `<` of TypeScript strings work on UTF-16 code units
                 bad.append(("C09:ts:verdict:astral" if astral else "C09:ts:verdict",
                             f"{case['cls']}: the Python SDK says the invariant {descr!r} {'holds' if py_holds else 'is violated'}, the emitted "
                             f"TypeScript condition `{' '.join(code.split())}` evaluates to {'true' if v else 'false'} on {case['show']}",
